@@ -27,3 +27,10 @@ PROP = {
         "M lines (deterministic scenarios) are compared for equality with the model run modulo the position of T events (T g is where the peer of g noticed the end, not the instant of the library's teardown)",
     ],
 }
+
+
+MANIFEST = {
+    "text": "Coq theorems over ALL action sequences of the Generations LTS (per-generation sockets, send queues and reply registries; the atomic steps of epoch / send / runtime / lifecycle): the observable log is accepted by ok_C09 — a frame appears only on the socket of the generation that accepted the call, only before that generation's teardown and at most once; a reply or reject completes a call only if it was received on the call's own generation; after teardown a waiter can only complete with ConnClosed / T3 / ctx error / a reply from its own generation; frames queued on a cancelled generation never reach any wire. Tied by e2e runs on real HSMS-SS and SECS-I connections over successive net.Pipe generations with generation-tagged payloads (generation ends injected while queued, parked at the write lock, mid-write and awaiting a reply; by peer close, Close+reopen, linktest, T7, T8, write timeout), logs judged by the extracted monitor and deterministic scenarios compared for equality with the model.",
+    "note": "'Promptly' is a run-time bound (closeTimeout + 3 s), observed not proved. Modelling assumption: the bounded join of a torn-down generation returns only when its recv loop holds no un-routed frame. Calls whose accepted generation is ambiguous (sampled before the call and inside writeFrame differ) are judged leniently and counted in the evidence. Passive roles not yet exercised.",
+    "technique": 'Rocq/Coq proof (inductive invariant with the monitor state as a function of the model state) + extracted monitor over e2e logs on both transports + deterministic scenario equality',
+}
